@@ -1407,7 +1407,7 @@ class EventElement(EDXMLEvent):
         Returns:
            EventElement:
         """
-        return deepcopy(self)
+        return self.create_from_event(self)
 
     @classmethod
     def create(cls, properties=None, event_type_name=None, source_uri=None, parents=None, attachments=None):
